@@ -403,8 +403,11 @@ func (df *DriverFacts) traces(fn *ssa.Function, iface *types.Interface) ([][]str
 			}
 			// call of a function-typed parameter: the converter method handed in by the caller
 			if p, ok := c.Call.Value.(*ssa.Parameter); ok {
-				if _, isSig := p.Type().Underlying().(*types.Signature); isSig {
-					events[b] = append(events[b], "conv($callout)")
+				if sig, isSig := p.Type().Underlying().(*types.Signature); isSig {
+					// (a method of the converter hands back an error; a predicate that is handed in does not)
+					if n := sig.Results().Len(); n > 0 && isErrorType(sig.Results().At(n-1).Type()) {
+						events[b] = append(events[b], "conv($callout)")
+					}
 				}
 			}
 		}
